@@ -36,6 +36,7 @@ import (
 	"runtime/debug"
 	"runtime/pprof"
 	"sort"
+	"strings"
 	"sync"
 	"sync/atomic"
 
@@ -139,6 +140,20 @@ func main() {
 			fmt.Println("shrunk to", classOf(m))
 		}
 		res := runCase(&c)
+		if strings.HasPrefix(class, "nondeterministic:") {
+			// the recorded case changes its outcome between evaluations: it still fails when
+			// repeated evaluations disagree with each other or any of them fails
+			set := sigSet(&c, 32)
+			for s := range set {
+				if s != "" {
+					res.Sig = s
+				}
+			}
+			if len(set) > 1 && res.Sig == "" {
+				res.Sig = "nondeterministic"
+			}
+			res.Detail = fmt.Sprintf("%d distinct outcomes in repeated evaluations; last: %s", len(set), res.Detail)
+		}
 		fmt.Printf("replay class=%s\n", class)
 		if c.Check == "env" {
 			fmt.Printf("  type: %s\n", c.Env.Spec)
